@@ -71,6 +71,25 @@ func (w *c05world) disturb(d string, c c05cfg) {
 				l.Client.CutLink()
 			}
 		}
+	case "discAcut", "discBcut":
+		// a graceful disconnect whose announce never gets an answer (the path is dead already, silently); the
+		// transport error follows 100 ms later
+		for _, l := range fakews.Links() {
+			if !l.Client.IsClosed() && !l.Server.IsClosed() {
+				l.Client.Blackhole()
+			}
+		}
+		if d == "discAcut" {
+			a.Hub.DisconnectSKI(b.SKI, "user")
+		} else {
+			b.Hub.DisconnectSKI(a.SKI, "user")
+		}
+		simrt.RunFor(100 * time.Millisecond)
+		for _, l := range fakews.Links() {
+			if !l.Client.IsClosed() && !l.Server.IsClosed() {
+				l.Client.CutLink()
+			}
+		}
 	case "outage":
 		// the network is gone for ten seconds: established links break, connection attempts fail
 		until := simrt.Elapsed() + 10*time.Second
@@ -297,6 +316,8 @@ func c05Scenarios(r *hx.Run) []hx.Scenario {
 			}
 			cfgs = append(cfgs, c05cfg{swap: swap, order: "together", reg: "before", dist: []string{d}})
 		}
+		cfgs = append(cfgs, c05cfg{swap: swap, order: "together", reg: "before", dist: []string{"discAcut"}})
+		cfgs = append(cfgs, c05cfg{swap: swap, order: "together", reg: "before", dist: []string{"discBcut"}})
 		// attempts that fail: an outage, and a peer that can only be reached in one direction
 		cfgs = append(cfgs, c05cfg{swap: swap, order: "together", reg: "before", dist: []string{"outage"}})
 		if r.Thorough() {
